@@ -177,6 +177,8 @@ def judge(src, isfree, analyze, ic, model_stmts, mdepths=None):
             # operators in sequence
             return [t for t in toks if not t.startswith("<")], sorted(t for t in toks if t.startswith("<"))
 
+        if split(got) != split(want) and re.match(r"(?i)character\s*\(", text) and sorted(got) == sorted(want):
+            continue  # CHARACTER(KIND=k, LEN=n) is printed LEN first (order of the selector only)
         if split(got) != split(want):
             return "content-differs", "statement %d: source %r -> %r\n  names/literals in source: %r\n  in regenerated text     : %r" % (i + 1, text, line, want, got)
     return None, None
